@@ -187,6 +187,10 @@ pub fn stream_check<V: Variant>(data: &[u8], script: &[Ev], rep: &mut Report) {
     if reader.interruptions > 0 {
         rep.count("stream:with_interruptions", 1);
     }
+    if reader.interruptions > 1024 {
+        rep.count("stream:with_more_than_1024_interruptions", 1);
+    }
+    rep.max("stream:max_interruptions_in_one_stream", reader.interruptions);
     if reader.pos > 1 << 20 {
         rep.count("stream:larger_than_buffer", 1);
     }
@@ -287,6 +291,19 @@ pub fn gen_script(rng: &mut Rng, total: usize) -> Vec<Ev> {
             }
         });
     }
+    // interruption storms: thousands of transient interruptions in one stream
+    if rng.chance(1, 12) {
+        let storms = rng.range(1100, 4000);
+        let at = rng.below(s.len() as u64 + 1) as usize;
+        let mut storm = Vec::with_capacity(storms as usize + 8);
+        for k in 0..storms {
+            storm.push(Ev::Interrupted);
+            if k % 500 == 250 {
+                storm.push(Ev::Deliver(1));
+            }
+        }
+        s.splice(at..at, storm);
+    }
     // interruption immediately before EOF / before the first read
     if rng.chance(1, 4) {
         s.insert(0, Ev::Interrupted);
@@ -305,7 +322,7 @@ pub fn gen_script(rng: &mut Rng, total: usize) -> Vec<Ev> {
 }
 
 pub fn run_stream(ctx: &Ctx, rep: &mut Report) {
-    rep.rule = "scripted readers over {deliver k bytes (1..5, random, fill), Interrupted, hard error of 19 kinds (every stable std::io::ErrorKind other than Interrupted), early EOF} on seeded data (0..64 KiB mostly; 1 MiB-1, 1 MiB, 1 MiB+1, 2.5 MiB in every run) for all five variants: without a hard error the result must equal hash_buf of the delivered bytes (as Ok or as the same generator error), with one it must be Err(IOError(kind)); files of sizes 0, 10, 1 MiB-1, 1 MiB, 1 MiB+1, 3 MiB and a missing path; non-trivial = more than one read or an injected event; distinct by fingerprint of (data, script)".into();
+    rep.rule = "scripted readers over {deliver k bytes (1..5, random, fill), Interrupted, hard error of 19 kinds (every stable std::io::ErrorKind other than Interrupted), early EOF} on seeded data (0..64 KiB mostly; 1 MiB-1, 1 MiB, 1 MiB+1, 2.5 MiB in every run) for all five variants: without a hard error the result must equal hash_buf of the delivered bytes (as Ok or as the same generator error), with one it must be Err(IOError(kind)); files of 21 sizes (0..=5, around 10 / 50 / 128 / 256, 4 KiB, 1 MiB-1, 1 MiB, 1 MiB+1, 3 MiB), procfs files whose metadata reports length 0, and a missing path; interruption storms of 1100..4000 transient errors in one stream; non-trivial = more than one read or an injected event; distinct by fingerprint of (data, script)".into();
     let n = ctx.n(12_000, 500_000);
     for i in 0..n {
         let mut rng = ctx.rng("c12", i);
@@ -354,6 +371,7 @@ pub fn run_stream(ctx: &Ctx, rep: &mut Report) {
     if ctx.scale >= 1.0 {
         rep.floor("stream:multi_read", 100);
         rep.floor("stream:with_interruptions", 100);
+        rep.floor("stream:with_more_than_1024_interruptions", 5);
         rep.floor("stream:hard_error", 20);
         rep.set_floor("hard-error-kinds", HARD_KINDS.len() as u64);
         rep.floor("stream:ok", 100);
@@ -398,7 +416,11 @@ fn missing_one<V: Variant>(path: &std::path::Path, rep: &mut Report) {
 pub fn files(ctx: &Ctx, rep: &mut Report) {
     let dir = std::path::Path::new(&ctx.scratch);
     let _ = std::fs::create_dir_all(dir);
-    let sizes: &[usize] = if ctx.scale < 1.0 { &[0, 10, 700] } else { &[0, 10, (1 << 20) - 1, 1 << 20, (1 << 20) + 1, 3 << 20] };
+    let sizes: &[usize] = if ctx.scale < 1.0 {
+        &[0, 10, 60, 700]
+    } else {
+        &[0, 1, 4, 5, 9, 10, 11, 49, 50, 51, 100, 127, 128, 255, 256, 257, 4096, (1 << 20) - 1, 1 << 20, (1 << 20) + 1, 3 << 20]
+    };
     for (i, &sz) in sizes.iter().enumerate() {
         let mut rng = ctx.rng("c12-file", i as u64);
         let (content, _) = gen::content(&mut rng, sz, None);
@@ -415,6 +437,18 @@ pub fn files(ctx: &Ctx, rep: &mut Report) {
             _ => rep.violation("file|default-helper", "tlsh::hash_file differs from hash_file_for::<Normal>", Json::obj().with("variant", "Normal").with("file_size", sz)),
         }
         let _ = std::fs::remove_file(&path);
+    }
+    // files whose metadata under-reports their contents (procfs reports length 0)
+    for special in ["/proc/version", "/proc/self/status", "/proc/cpuinfo"] {
+        let path = std::path::Path::new(special);
+        if let Ok(content) = std::fs::read(path) {
+            // /proc/self/status may change between two reads: compare only stable ones
+            let again = std::fs::read(path).unwrap_or_default();
+            if content == again && !content.is_empty() {
+                all_variants!(file_one, path, &content, rep);
+                rep.count("special_files_hashed", 1);
+            }
+        }
     }
     let missing = dir.join("c12-this-file-does-not-exist");
     all_variants!(missing_one, &missing, rep);
